@@ -87,7 +87,25 @@ class Fold:
                 return a ** b
         if isinstance(e, ast.Call) and (self.mod.dotted(e.func) or '') in ('numpy.matmul', 'numpy.dot') and len(e.args) == 2:
             return self.ev(e.args[0], env) * self.ev(e.args[1], env)
+        if isinstance(e, ast.Call) and isinstance(e.func, ast.Name) and self.mod.has_func(e.func.id) and not e.keywords and depth_ok(self):
+            # module-level helper with a single `return <expr>` (docstring allowed): evaluate its body with the arguments bound
+            h = self.mod.func(e.func.id)
+            body = [x for x in h.body if not (isinstance(x, ast.Expr) and isinstance(x.value, ast.Constant) and isinstance(x.value.value, str))]
+            params = [a.arg for a in h.args.args]
+            if len(body) == 1 and isinstance(body[0], ast.Return) and body[0].value is not None and len(params) == len(e.args) and not h.args.vararg and not h.args.kwarg:
+                env2 = dict(self.env)
+                for p_, a_ in zip(params, e.args):
+                    env2[p_] = self.ev(a_, env)
+                self._depth = getattr(self, '_depth', 0) + 1
+                try:
+                    return self.ev(body[0].value, env2)
+                finally:
+                    self._depth -= 1
         raise Unrecognised('cannot fold %s' % unparse(e))
+
+
+def depth_ok(folder):
+    return getattr(folder, '_depth', 0) < 4
 
 
 def d1_clifford(ctx, m, fold):
@@ -348,6 +366,8 @@ def run(ctx):
 
 
 SELFTEST = [
+    ('benign-sigma-via-helper', 'pyerrors/dirac.py', 'def Grid_gamma(gamma_tag):\n    """Returns gamma matrix in Grid labeling."""\n    if gamma_tag == \'Identity\':\n        g = identity\n    elif gamma_tag == \'Gamma5\':\n        g = gamma5\n    elif gamma_tag == \'GammaX\':\n        g = gamma[0]\n    elif gamma_tag == \'GammaY\':\n        g = gamma[1]\n    elif gamma_tag == \'GammaZ\':\n        g = gamma[2]\n    elif gamma_tag == \'GammaT\':\n        g = gamma[3]\n    elif gamma_tag == \'GammaXGamma5\':\n        g = gamma[0] @ gamma5\n    elif gamma_tag == \'GammaYGamma5\':\n        g = gamma[1] @ gamma5\n    elif gamma_tag == \'GammaZGamma5\':\n        g = gamma[2] @ gamma5\n    elif gamma_tag == \'GammaTGamma5\':\n        g = gamma[3] @ gamma5\n    elif gamma_tag == \'SigmaXT\':\n        g = 0.5 * (gamma[0] @ gamma[3] - gamma[3] @ gamma[0])\n    elif gamma_tag == \'SigmaXY\':\n        g = 0.5 * (gamma[0] @ gamma[1] - gamma[1] @ gamma[0])\n    elif gamma_tag == \'SigmaXZ\':\n        g = 0.5 * (gamma[0] @ gamma[2] - gamma[2] @ gamma[0])\n    elif gamma_tag == \'SigmaYT\':\n        g = 0.5 * (gamma[1] @ gamma[3] - gamma[3] @ gamma[1])\n    elif gamma_tag == \'SigmaYZ\':\n        g = 0.5 * (gamma[1] @ gamma[2] - gamma[2] @ gamma[1])\n    elif gamma_tag == \'SigmaZT\':\n        g = 0.5 * (gamma[2] @ gamma[3] - gamma[3] @ gamma[2])\n', 'def _sig(mu, nu):\n    return 0.5 * (gamma[mu] @ gamma[nu] - gamma[nu] @ gamma[mu])\n\n\ndef Grid_gamma(gamma_tag):\n    """Returns gamma matrix in Grid labeling."""\n    if gamma_tag == \'Identity\':\n        g = identity\n    elif gamma_tag == \'Gamma5\':\n        g = gamma5\n    elif gamma_tag == \'GammaX\':\n        g = gamma[0]\n    elif gamma_tag == \'GammaY\':\n        g = gamma[1]\n    elif gamma_tag == \'GammaZ\':\n        g = gamma[2]\n    elif gamma_tag == \'GammaT\':\n        g = gamma[3]\n    elif gamma_tag == \'GammaXGamma5\':\n        g = gamma[0] @ gamma5\n    elif gamma_tag == \'GammaYGamma5\':\n        g = gamma[1] @ gamma5\n    elif gamma_tag == \'GammaZGamma5\':\n        g = gamma[2] @ gamma5\n    elif gamma_tag == \'GammaTGamma5\':\n        g = gamma[3] @ gamma5\n    elif gamma_tag == \'SigmaXT\':\n        g = _sig(0, 3)\n    elif gamma_tag == \'SigmaXY\':\n        g = _sig(0, 1)\n    elif gamma_tag == \'SigmaXZ\':\n        g = _sig(0, 2)\n    elif gamma_tag == \'SigmaYT\':\n        g = _sig(1, 3)\n    elif gamma_tag == \'SigmaYZ\':\n        g = _sig(1, 2)\n    elif gamma_tag == \'SigmaZT\':\n        g = _sig(2, 3)\n', 'BENIGN'),
+    ('sigma-via-helper-one-swapped', 'pyerrors/dirac.py', 'def Grid_gamma(gamma_tag):\n    """Returns gamma matrix in Grid labeling."""\n    if gamma_tag == \'Identity\':\n        g = identity\n    elif gamma_tag == \'Gamma5\':\n        g = gamma5\n    elif gamma_tag == \'GammaX\':\n        g = gamma[0]\n    elif gamma_tag == \'GammaY\':\n        g = gamma[1]\n    elif gamma_tag == \'GammaZ\':\n        g = gamma[2]\n    elif gamma_tag == \'GammaT\':\n        g = gamma[3]\n    elif gamma_tag == \'GammaXGamma5\':\n        g = gamma[0] @ gamma5\n    elif gamma_tag == \'GammaYGamma5\':\n        g = gamma[1] @ gamma5\n    elif gamma_tag == \'GammaZGamma5\':\n        g = gamma[2] @ gamma5\n    elif gamma_tag == \'GammaTGamma5\':\n        g = gamma[3] @ gamma5\n    elif gamma_tag == \'SigmaXT\':\n        g = 0.5 * (gamma[0] @ gamma[3] - gamma[3] @ gamma[0])\n    elif gamma_tag == \'SigmaXY\':\n        g = 0.5 * (gamma[0] @ gamma[1] - gamma[1] @ gamma[0])\n    elif gamma_tag == \'SigmaXZ\':\n        g = 0.5 * (gamma[0] @ gamma[2] - gamma[2] @ gamma[0])\n    elif gamma_tag == \'SigmaYT\':\n        g = 0.5 * (gamma[1] @ gamma[3] - gamma[3] @ gamma[1])\n    elif gamma_tag == \'SigmaYZ\':\n        g = 0.5 * (gamma[1] @ gamma[2] - gamma[2] @ gamma[1])\n    elif gamma_tag == \'SigmaZT\':\n        g = 0.5 * (gamma[2] @ gamma[3] - gamma[3] @ gamma[2])\n', 'def _sig(mu, nu):\n    return 0.5 * (gamma[mu] @ gamma[nu] - gamma[nu] @ gamma[mu])\n\n\ndef Grid_gamma(gamma_tag):\n    """Returns gamma matrix in Grid labeling."""\n    if gamma_tag == \'Identity\':\n        g = identity\n    elif gamma_tag == \'Gamma5\':\n        g = gamma5\n    elif gamma_tag == \'GammaX\':\n        g = gamma[0]\n    elif gamma_tag == \'GammaY\':\n        g = gamma[1]\n    elif gamma_tag == \'GammaZ\':\n        g = gamma[2]\n    elif gamma_tag == \'GammaT\':\n        g = gamma[3]\n    elif gamma_tag == \'GammaXGamma5\':\n        g = gamma[0] @ gamma5\n    elif gamma_tag == \'GammaYGamma5\':\n        g = gamma[1] @ gamma5\n    elif gamma_tag == \'GammaZGamma5\':\n        g = gamma[2] @ gamma5\n    elif gamma_tag == \'GammaTGamma5\':\n        g = gamma[3] @ gamma5\n    elif gamma_tag == \'SigmaXT\':\n        g = _sig(0, 3)\n    elif gamma_tag == \'SigmaXY\':\n        g = _sig(0, 1)\n    elif gamma_tag == \'SigmaXZ\':\n        g = _sig(0, 2)\n    elif gamma_tag == \'SigmaYT\':\n        g = _sig(1, 3)\n    elif gamma_tag == \'SigmaYZ\':\n        g = _sig(2, 1)\n    elif gamma_tag == \'SigmaZT\':\n        g = _sig(2, 3)\n', 'C20-D2'),
     ('gamma-entry-sign', 'pyerrors/dirac.py', "[[0, 0, 1j, 0], [0, 0, 0, -1j], [-1j, 0, 0, 0], [0, 1j, 0, 0]]", "[[0, 0, 1j, 0], [0, 0, 0, 1j], [-1j, 0, 0, 0], [0, -1j, 0, 0]]", None),
     ('gamma5-sign', 'pyerrors/dirac.py', "[[1, 0, 0, 0], [0, 1, 0, 0], [0, 0, -1, 0], [0, 0, 0, -1]]", "[[-1, 0, 0, 0], [0, -1, 0, 0], [0, 0, 1, 0], [0, 0, 0, 1]]", 'C20-D1'),
     ('sigma-swapped', 'pyerrors/dirac.py', "g = 0.5 * (gamma[0] @ gamma[2] - gamma[2] @ gamma[0])", "g = 0.5 * (gamma[0] @ gamma[1] - gamma[1] @ gamma[0])", 'C20-D2'),
